@@ -58,6 +58,7 @@ class Sim:
         self.events, self.count, self.crash_at = [], 0, None
         self.launches = []
         self.in_operator = False
+        self.after_batch = False
         self.cur_job = (99, 99)
 
     # ---- step / path helpers ----
@@ -169,6 +170,14 @@ class Sim:
             done.append(k)
             self.events.append({"ev": "publish", "k": k})
         self.events.append({"ev": "pipeline_done"})
+        # "just after a step completes": an interruption point that is not in front of any filesystem mutation
+        # (in prospective mode, after the last plate of a batch, the script cannot tell it from a normal end of the invocation and
+        # neither can anybody else: it counts as one)
+        try:
+            self.tick()
+        except CrashNow:
+            self.after_batch = self.mode == "prospective" and step[1] == self.B - 1
+            raise
         return 0
 
     # ---- one invocation of the script ----
@@ -251,6 +260,9 @@ class Sim:
             self.events.append({"ev": "exit"})
             return "exit", None
         except CrashNow:
+            if self.after_batch:
+                self.events.append({"ev": "exit"})
+                return "exit", None
             self.events.append({"ev": "crash"})
             return "crash", None
         except Runaway:
@@ -284,6 +296,7 @@ class Sim:
         exits = 0
         for _ in range(40):
             self.crash_at = (self.count + pending.pop(0)) if pending else None
+            self.after_batch = False
             what, info = self.invoke()
             if what == "named":
                 self.in_operator = True
@@ -298,7 +311,12 @@ class Sim:
                 return "too-many-reruns"
             elif what == "exit":
                 exits += 1
-                if self.mode == "retrospective" or exits >= max_iter:
+                if self.mode == "retrospective":
+                    # starting the script again on a finished simulation must find nothing to do
+                    self.crash_at = None
+                    what, info = self.invoke()
+                    return "finished" if what == "exit" else "rerun-of-finished-" + what
+                if exits >= max_iter:
                     return "finished"
         return "too-many-reruns"
 
